@@ -203,6 +203,7 @@ def oracle (implObs : List (List String)) : String :=
   | _ =>
     match (obsTok implObs "ev").bind boolOfTok, (obsTok implObs "twin").bind boolOfTok, obsTok implObs "fast" with
     | some ev, some twin, some f =>
+      if obsTok implObs "conc" == some "f" then "fail:concurrent-evaluations-of-one-predicate-decide-differently" else
       SpecC12.verdict { ev := ev, twin := twin, fast := boolOfTok f, failed := obsTok implObs "gen" == some "err" }
     | _, _, _ => "fail:observation-missing"
 
@@ -223,7 +224,8 @@ def stepOp (op : List String) (implObs : List (List String)) : Option Step :=
       let fast := c.fastPath row
       let agree := Cond.parseAgrees t p
       let o := [sh, ["cond", "ok"], ["twincond", "ok"], ["fast", optTok fast], ["ev", boolTok (c.evaluate row)],
-                ["gen", resTok (generalEval p row)], ["twin", boolTok (SpecC12.generalDecision (.paren p) row)]]
+                ["gen", resTok (generalEval p row)], ["twin", boolTok (SpecC12.generalDecision (.paren p) row)],
+                ["conc", "t"]]   -- a compiled predicate is immutable: concurrent evaluations decide as the sequential one
       let o := if agree then o else o ++ [["parse-table-assumption-broken"]]
       let ftag := match fast with
         | some _ => "fast-answers" | none => declineTag c
